@@ -90,6 +90,9 @@ class Args(object):
         return self
 
     def is_option_set(self, name):  # type: (str) -> bool
+        if self._fmt.has_option(name):
+            name = self._fmt.get_option(name).long_name
+
         return name in self._options
 
     def is_option_defined(self, name):  # type: (str) -> bool
@@ -99,7 +102,7 @@ class Args(object):
         argument = self._fmt.get_argument(name)
 
         if argument.name in self._arguments:
-            return self._arguments[name]
+            return self._arguments[argument.name]
 
         return argument.default
 
@@ -133,6 +136,9 @@ class Args(object):
         return self
 
     def is_argument_set(self, name):  # type: (Union[str, int]) -> bool
+        if isinstance(name, int) and self._fmt.has_argument(name):
+            name = self._fmt.get_argument(name).name
+
         return name in self._arguments
 
     def is_argument_defined(self, name):  # type: (Union[str, int]) -> bool
